@@ -342,6 +342,24 @@ def scope(rep, mode: str, sigma: list[str], maxlen: int, size: int, d, emit_all:
         raise tlc.TlcFailure(f"{mode} mode emitted too few cases")
 
 
+def enum_explicit(rep) -> None:
+    """Value lists of three and more whose member names collide only through a disambiguation / positional suffix (`kb_2` next to `kb`, `KB`;
+    `value_1` next to a value named by position): no value may disappear without a diagnostic."""
+    lists = [["kb_2", "kb", "KB"], ["kb", "KB", "kb_1"], ["a_1", "a", "A"], ["x_2", "y", "x", "X"], ["value_1", "1st", "2nd"], ["1st", "value_0"], ["VALUE_0", "0", "x"],
+             ["a", "A", "a_1", "A_1"], ["n", "N", "n_1", "n_2", "N_2"], ["b-1", "b", "B", "b_1"]]
+    for inp in lists:
+        vals, diag, exc, doc = _enum_real(inp)
+        rep.count(1, ("enum-explicit", json.dumps(inp)))
+        if exc is not None and "Duplicate key" in exc:
+            rep.violate("C09/enum-keys/duplicate-key-raises-ValueError", "colliding enum member keys are reported by an unhandled ValueError, not a diagnostic", input=inp, exc=exc, doc=doc)
+        elif exc is not None:
+            _scope_verdict(rep, "enum-keys", inp, None, diag, exc, {"doc": doc})
+        elif vals is not None and (len(vals) != len(inp) or sorted(map(str, vals.values())) != sorted(inp)) and not diag:
+            rep.violate("C09/enum-keys/value-lost", f"enum values {inp} became members {dict(vals)}: a value disappeared without a diagnostic", input=inp, members=dict(vals), doc=doc)
+        else:
+            _scope_verdict(rep, "enum-keys", inp, None if vals is None else list(vals), diag, exc, {"doc": doc})
+
+
 def reserved_parameters(rep) -> None:
     """Names.tla's ReservedParams: a parameter whose name is one the generated function uses itself (client, url, body, and the
     headers / params / cookies dictionaries) must be renamed - in every location, with and without a request body, whether or not the
@@ -479,6 +497,7 @@ def run(rep) -> None:
             scope(rep, mode, sigma, maxlen, size, d, emit_all)
         sweep(rep)
         reserved_parameters(rep)
+        enum_explicit(rep)
         traces(rep, 1500 if quick else 12000, d)
     finally:
         rmtree(d)
